@@ -469,9 +469,13 @@ def check_forget_scope(ck, cm: CacheModel):
         # prefix tests on keys that come out of self.<tb> (the tested variable is bound by a comprehension or a loop over it)
         def _deps_at(e, at):
             """dependency atoms of `e`, evaluated at the statement that contains `at` (works inside a lambda body as well)"""
-            st_ = fF.stmt_of(at) or at
+            ids_ = fF.nodes(e) or fF.nodes(at)
+            x_ = at
+            while not ids_ and x_ is not None:
+                x_ = fF.pm.get(x_)  # out of a lambda body, up to something the CFG knows
+                ids_ = fF.nodes(x_) if x_ is not None else []
             out_ = set()
-            for i_ in fF.nodes(st_):
+            for i_ in ids_:
                 out_ |= fF.df.deps(e, i_)
             return out_
         sw_all = list(fF.calls("startswith")) + [c_ for lam in A.walk_body(fF.node) if isinstance(lam, ast.Lambda)
